@@ -405,6 +405,39 @@ pub fn guarded<T>(f: impl FnOnce() -> T) -> Result<T, String> {
     }
 }
 
+/// Global progress counter: every engine bumps it once per explored case. A monitor thread turns
+/// "no progress for `limit`" into a hang violation of the running property (an operation of the
+/// crate does not return), so that a non-terminating change cannot make a check run forever.
+pub static HEART: std::sync::atomic::AtomicU64 = std::sync::atomic::AtomicU64::new(0);
+
+#[inline]
+pub fn beat() {
+    HEART.fetch_add(1, std::sync::atomic::Ordering::Relaxed);
+}
+
+pub fn start_progress_monitor(prop: String, limit: std::time::Duration) {
+    std::thread::spawn(move || {
+        let mut last = (HEART.load(std::sync::atomic::Ordering::Relaxed), Instant::now());
+        loop {
+            std::thread::sleep(std::time::Duration::from_secs(2));
+            let now = HEART.load(std::sync::atomic::Ordering::Relaxed);
+            if now != last.0 {
+                last = (now, Instant::now());
+            } else if last.1.elapsed() > limit {
+                let dir = format!("{}/replays/{}", out_dir(), prop);
+                let _ = std::fs::create_dir_all(&dir);
+                let path = format!("{}/no-progress.json", dir);
+                let rec = json!({"property": prop, "clause": "hang", "key": format!("{}|hang|no explored case completed for {:?}", prop, limit),
+                    "case": {"engine": "monitor"}, "observed": format!("no explored case completed for {:?} after {} cases: an operation of the crate does not return", limit, now), "expected": "every operation returns"});
+                let _ = std::fs::write(&path, serde_json::to_string_pretty(&rec).unwrap());
+                println!("VIOLATION property={} replay={}", prop, path);
+                println!("  key: {}|hang|no explored case completed for {:?} (after {} cases)", prop, limit, now);
+                std::process::exit(1);
+            }
+        }
+    });
+}
+
 pub fn silence_panics() {
     std::panic::set_hook(Box::new(|_| {}));
 }
